@@ -432,7 +432,8 @@ def make_term(
     if coefficient == 1:
         return PowerExpression(varExp, expConstExp)
 
-    return PowerExpression(multExp, expConstExp)
+    # c * x^e: the exponent applies to the variable only
+    return MultiplyExpression(constExp, PowerExpression(varExp, expConstExp))
 
 
 class TermResult:
